@@ -33,6 +33,7 @@ PICK = {
     "S7": dict(p0=["a", "b"], p1=["b", "c"], q0=["a", "b"]),
     "S9": dict(g0=["a", "b"], p0=["a", "b"], l0=["a", "c"], u0=["a", "b"], imp=["late", "a"]),
     "S8": dict(g0=["a", "b"], p0=["a", "b"], l0=["a", "b", "c"], u0=["a", "b"]),
+    "S10": dict(g0=["a"], g1=["b"], p0=["a", "b"], u0=["a", "b"], p1=["c", "b"], u1=["a", "b"], ann=["int"], l0=["a", "c"], u2=["a", "b"]),
     "S3C": dict(g0=["a"], p0=["a", "b"], c2=["a", "b"], e0=["e", "a"], w0=["w"], t0=["t", "a"], u2=["b"]),
 }
 BUILTINS = set(dir(builtins))
@@ -63,7 +64,7 @@ def mods():
 class C20(Check):
     pid = "C20"
     level = "exploration"
-    rule = ("cases = modules of 9 scoping schemas (incl. a function-level import of a project module) (incl. multi-line statements whose continuation lines are indented less than the enclosing def) (selected hole menus; CPython-valid); evaluations = one code_assist call per "
+    rule = ("cases = modules of 10 scoping schemas (incl. multi-line default values / annotations / decorator arguments that read names the function also binds) (incl. a function-level import of a project module) (incl. multi-line statements whose continuation lines are indented less than the enclosing def) (selected hole menus; CPython-valid); evaluations = one code_assist call per "
             "(module, character offset, variant in {as is, rest of line deleted}, maxfixes in {1,3}, later_locals in {T,F}) and one "
             "get_definition_location call per identifier token; checks: no exception on a valid module (only RopeError tolerated on "
             "the truncated variant); every proposal starts with the typed prefix; on statement-body positions outside "
